@@ -84,7 +84,7 @@ def run(tier, seed, work, replay):
         "Trace_KMCertFlow.cfg", lambda ev: {"via": ev["case"]["via"], "webui": ev["case"]["webui"], "start": sorted(ev["case"]["start"]),
                                             "cfg": sorted(ev["case"]["cfg"])},
         lambda e: (tuple(e["case"]["cfg"]), e["case"]["webui"], tuple(e["case"]["start"]), e["case"]["via"], e["out"]["issued"]),
-        harness_prop="C01flow", binary=binary)
+        harness_prop="C01flow", binary=binary, chunk=40000)
     for sg, path in sub.violations:
         res.violations.append((sg, path))
     for k, v in sub.known_hits.items():
